@@ -596,9 +596,6 @@ class Engine:
         name = self.new_name("bad")
         spec, _exp = gen.data_spec(obj, "float", assoc, self.rng, tag=self.counter)
         op.update(cls=o.cls, target=o.uid, name=name, expect="raises")
-        fp = self.last_footprint
-        fp["create"], fp["any_type"] = True, True
-        fp["links"].add("Objects/" + br(o.uid))
         try:
             obj.add_data({name: spec}, compression=12)
         except Exception as exc:  # noqa: BLE001
